@@ -41,6 +41,15 @@ Streams
           re-assigned, interleaved with assignments to the shared Source; every read is judged at the CURRENT
           circuit / input / settings against the mixture reference on a circuit rebuilt from the program, a new
           Sampler and the exact model.
+  own     DEFAULT SOURCES ARE PER OBJECT: worlds of 2-5 long-lived Samplers that each have a Source of their OWN - made by
+          the library because none was given (source argument left out, None by keyword, None by position, or
+          `sampler.source = None` later) or given explicitly (Source(), Source(**settings)).  One of them is tuned IN PLACE
+          through its accessor (sampler.source.brightness = ...), others exist before and are created afterwards, are
+          put back on a default or get a new explicit Source.  The harness keeps its own record of what every Sampler
+          was given; after every step the attributes of EVERY Sampler's source are compared with that record, and every
+          observation is judged at the RECORDED settings exactly as in `hist` (mixture reference, new Sampler with an
+          explicit new Source, perfect = ideal, g2, HOM, check_number, exact model): a Sampler that was given no
+          source has the perfect source whatever was done to other Samplers.  Directed corpus (own_corpus) first.
   g2f     exact float purities 1 - 1e-k and 0.5 + 1e-k (no rational two-photon weight exists: oracle only)
 
 Parameter boundaries (EDGE grids): brightness / sqrt(indistinguishability) / threshold 1 - 1e-k and 1e-k for
@@ -117,6 +126,7 @@ INCLUDE_CANCELLATION_RANGE = os.environ.get("VERIF_C06_CANCELLATION", "1") != "0
 INCLUDE_OVER_THRESHOLD = True
 N_HIST_QUICK = 70  # random histories at quick tier (the directed ones of hist_corpus() always run first)
 N_HIST_CIRC_QUICK = 45  # random histories with circuit / input changes at quick tier
+N_OWN_QUICK = 40  # random worlds of Samplers with a Source of their own at quick tier (own_corpus() always runs first)
 
 
 # --------------------------------------------------------------------------- parameters
@@ -1119,6 +1129,302 @@ def run_hist_steps(ctx: Ctx, case: dict) -> list[str]:
     return probs
 
 
+# --------------------------------------------------------------------------- worlds of Samplers with a Source of their own
+#
+#   case = {"kind": "own", "prog": .., "samplers": [{"backend": b, "input": [..], "form": form, ["par": par]}, ..],
+#           "state": [..], "steps": [step, ..]}
+#   form = "omit" (Sampler(c, s, backend=b)) | "none" (source=None) | "pos" (Sampler(c, s, None, None, b))
+#        | "default_obj" (source=Source()) | "kwargs" (source=Source(**par))
+#   step = {"op": "new", "who": i}                                    sampler i is created (its form says how)
+#        | {"op": "tune", "who": i, "set": [[key, "p/q", form], ..]}   sampler_i.source.<attr> = v   (IN PLACE, its own Source)
+#        | {"op": "none", "who": i}                                   sampler_i.source = None        (back to a default)
+#        | {"op": "replace", "who": i, "par": par}                    sampler_i.source = Source(**par)
+#        | {"op": "obs", "who": [i, ..], "stats": bool}               judge these Samplers at their RECORDED settings
+# A step that names a Sampler which does not exist (yet) is skipped, so every sub-list of steps is a world.
+
+OWN_FORMS = ("omit", "none", "pos", "default_obj", "kwargs")
+OWN_DEFAULT_FORMS = ("omit", "none", "pos")
+OWN_FORM_TEXT = {"omit": "created without a source argument", "none": "created with source=None", "pos": "created with None at the "
+                 "position of the source", "default_obj": "created with source=Source()", "kwargs": "created with an explicit Source"}
+
+
+def own_sampler(c, sp: dict):
+    st, b, form = lw.State(sp["input"]), sp["backend"], sp["form"]
+    if form == "omit":
+        return emulator.Sampler(c, st, backend=b)
+    if form == "none":
+        return emulator.Sampler(c, st, source=None, backend=b)
+    if form == "pos":
+        return emulator.Sampler(c, st, None, None, b)
+    if form == "default_obj":
+        return emulator.Sampler(c, st, source=emulator.Source(), backend=b)
+    return emulator.Sampler(c, st, source=make_source(sp["par"]), backend=b)
+
+
+def own_pristine_start() -> None:
+    """every world is an experiment of its own (and a shrunk world replays in a new process): whatever an earlier world of
+    this process did to a source that the library shares between objects is undone through the same public accessors,
+    on new default Samplers of every call form.  If default sources are per object this touches throw-away objects."""
+    c = lw.Circuit(1)
+    for form in OWN_DEFAULT_FORMS:
+        src = own_sampler(c, {"input": [1], "backend": "permanent", "form": form}).source
+        src.purity, src.brightness, src.indistinguishability, src.probability_threshold = 1, 1, 1, 0
+
+
+def own_script(case: dict) -> list[str]:
+    out = ["c = <circuit built by case['prog']>"]
+    mk = {"omit": "", "none": "source=None, ", "pos": "None, None, ", "default_obj": "source=emulator.Source(), "}
+    for k, st in enumerate(case["steps"]):
+        i = st.get("who")
+        if st["op"] == "new":
+            sp = case["samplers"][i]
+            a = mk.get(sp["form"], f"source=emulator.Source({show_par(sp['par'])}), " if sp["form"] == "kwargs" else "")
+            b = repr(sp["backend"]) if sp["form"] == "pos" else f"backend={sp['backend']!r}"
+            out.append(f"s{i} = emulator.Sampler(c, lw.State({sp['input']}), {a}{b})")
+        elif st["op"] == "tune":
+            out.extend(f"s{i}.source.{ATTR[key]} = {attr_value(key, F(val), form)!r}" for key, val, form in st["set"])
+        elif st["op"] == "none":
+            out.append(f"s{i}.source = None")
+        elif st["op"] == "replace":
+            out.append(f"s{i}.source = emulator.Source({show_par(st['par'])})")
+        else:
+            obs = [f"s{j}.probability_distribution" for j in i] + ([f"s{j}.source.check_number(lw.State({case['state']}))" for j in i] if st["stats"] else [])
+            out.append(f"observe[{k}]: " + ", ".join(obs))
+    return out
+
+
+def run_own(ctx: Ctx, case: dict) -> list[str]:
+    try:
+        return run_own_steps(ctx, case)
+    except NotACase:
+        return []
+    finally:
+        own_pristine_start()
+
+
+def run_own_steps(ctx: Ctx, case: dict) -> list[str]:
+    own_pristine_start()
+    env = HistEnv(case)
+    c = env.pools[0].get("c1")
+    if c is None or any(c.input_modes != len(sp["input"]) for sp in case["samplers"]):
+        return []
+    n = len(case["samplers"])
+    samplers: list = [None] * n
+    want: list = [None] * n          # the harness's record: the settings sampler i's source was given
+    story: list = [""] * n           # ... and how
+    tuned: list = []                 # Samplers whose own source was tuned in place so far
+    memo: dict = {}
+
+    def label(i: int) -> str:
+        others = [j for j in tuned if j != i]
+        return (f"sampler {i} ({story[i]}" + (f"; the sources of OTHER samplers {others} were tuned in place" if others else "") + ")")
+
+    def cross_check(where: str) -> list[str]:
+        """the attributes of EVERY Sampler's source read what the harness recorded for that Sampler"""
+        for i, sm in enumerate(samplers):
+            if sm is None:
+                continue
+            for key, a in ATTR.items():
+                got, w = getattr(sm.source, a), attr_value(key, F(want[i][key]))
+                if isinstance(got, bool) or got != w:
+                    return [f"oracle: {where}: settings of an object changed without being assigned: {label(i)} reports "
+                            f"source.{a} = {got!r}, the value given to THIS sampler's source is {w!r}: a source that the library "
+                            f"made for one Sampler is used by another"]
+        return []
+
+    for k, step in enumerate(case["steps"]):
+        op, i = step["op"], step.get("who")
+        where = f"step {k}"
+        if op != "obs" and (not isinstance(i, int) or i >= n or (samplers[i] is None) != (op == "new")):
+            continue
+        if op == "new":
+            sp = case["samplers"][i]
+            try:
+                samplers[i] = own_sampler(c, sp)
+            except Exception as e:  # noqa: BLE001
+                return [f"oracle: {where}: creating a Sampler ({OWN_FORM_TEXT[sp['form']]}) raised {exc_class(e)}"]
+            want[i] = dict(sp["par"]) if sp["form"] == "kwargs" else dict(PERFECT)
+            story[i] = OWN_FORM_TEXT[sp["form"]] + (" after that" if tuned else "")
+            where += f" after sampler {i} was {OWN_FORM_TEXT[sp['form']]}"
+        elif op == "tune":
+            for key, val, form in step["set"]:
+                v = attr_value(key, F(val), form)
+                try:
+                    setattr(samplers[i].source, ATTR[key], v)
+                except Exception as e:  # noqa: BLE001
+                    return [f"oracle: {where}: sampler {i}.source.{ATTR[key]} = {v!r} (a valid value) raised {exc_class(e)}"]
+                want[i][key] = val
+            if step["set"] and i not in tuned:
+                tuned.append(i)
+            if step["set"]:
+                story[i] += ", then tuned in place through its accessor"
+            where += f" after sampler {i}.source." + ", ".join(f"{ATTR[key]} = {attr_value(key, F(val), form)!r}" for key, val, form in step["set"])
+        elif op == "none":
+            try:
+                samplers[i].source = None
+            except Exception as e:  # noqa: BLE001
+                return [f"oracle: {where}: sampler {i}.source = None raised {exc_class(e)}"]
+            want[i] = dict(PERFECT)
+            story[i] += ", then put back on a default by source = None"
+            where += f" after sampler {i}.source = None"
+        elif op == "replace":
+            want[i] = dict(step["par"])
+            probs = check_par(want[i])
+            if probs:
+                return probs
+            samplers[i].source = make_source(want[i])
+            story[i] += ", then given a new explicit Source"
+            where += f" after sampler {i}.source = Source({show_par(want[i])})"
+        probs = cross_check(where)
+        if probs:
+            return probs
+        if op == "obs":
+            for j in step["who"]:
+                if j >= n or samplers[j] is None:
+                    continue
+                probs = hist_observe(ctx, case, env, samplers[j].source, samplers, {"use": [j], "stats": step["stats"]},
+                                     want[j], memo, f"{where}: {label(j)}")
+                if probs:
+                    return probs
+    return []
+
+
+def gen_own(ctx: Ctx, rng):
+    cap = 4 if ctx.thorough else 3
+    r0 = rng.random()
+    if r0 < 0.2:
+        prog, inp = HOM_PROG, [1, 1]
+    elif r0 < 0.28:
+        prog, inp = WIRE_PROG, rng.choice([[1], [1], [2]])
+    elif r0 < 0.45:
+        prog = tri_prog(rng.random() < 0.5)
+        inp = fg.rand_state(rng, 3, rng.choice([1, 2, 2, 3]))
+    else:
+        prog = fg.gen_circuit(ctx, rng, max_depth=2, max_n=4, max_herald_photons=1)
+        inp = None
+    c = fg.build_impl(prog).get("c1")
+    if c is None or c.input_modes == 0 or np.array(c.U_full).shape[0] > 8:
+        return None
+    hp = fg.herald_photons(c)
+    if hp > cap - 1:
+        return None
+    if inp is None:
+        inp = fg.rand_state(rng, c.input_modes, max(0, min(rng.choice([1, 2, 2, 3]), cap - hp)))
+    n = rng.choice([2, 3, 3, 4, 5])
+    samplers = []
+    for i in range(n):
+        form = rng.choice(["omit", "omit", "none", "none", "pos", "default_obj", "kwargs"])
+        sp = {"backend": rng.choice(["permanent", "slos"]), "form": form,
+              "input": inp if rng.random() < 0.7 else fg.rand_state(rng, c.input_modes, max(0, min(rng.choice([1, 2, 3]), cap - hp)))}
+        if form == "kwargs":
+            sp["par"] = gen_par(rng, thr=False, edge=0.1)
+        samplers.append(sp)
+    if samplers[0]["form"] == "kwargs" and rng.random() < 0.8:
+        samplers[0] = {k: v for k, v in samplers[0].items() if k != "par"} | {"form": rng.choice(OWN_DEFAULT_FORMS)}
+    grids = {"nu": NU, "x": X, "q": QS, "thr": THR}
+
+    def tune(i):
+        keys = rng.sample(["nu", "x", "q", "q", "nu", "thr"], rng.choice([1, 1, 2, 3]))
+        return {"op": "tune", "who": i, "set": [[key, frac_str(rng.choice([v for v in grids[key] if v != F(PERFECT[key])])),
+                                                 rng.choice(["float", "float", "np"])] for key in dict.fromkeys(keys)]}
+
+    def obs(who):
+        return {"op": "obs", "who": list(who), "stats": rng.random() < 0.4}
+
+    made = [0] + ([1] if rng.random() < 0.7 else [])
+    steps = [{"op": "new", "who": i} for i in made]
+    if rng.random() < 0.5:
+        steps.append(obs(made))
+    steps.append(tune(0))
+    for _ in range(rng.randint(2, 6)):
+        r = rng.random()
+        j = rng.choice(made)
+        if r < 0.35 and len(made) < n:
+            made.append(len(made))
+            steps += [{"op": "new", "who": made[-1]}, obs([made[-1]])]
+        elif r < 0.55:
+            steps.append(tune(j))
+        elif r < 0.7:
+            steps.append({"op": "none", "who": j})
+        elif r < 0.78:
+            steps.append({"op": "replace", "who": j, "par": gen_par(rng, thr=False, edge=0.1) if rng.random() < 0.7 else dict(PERFECT)})
+        steps.append(obs(rng.sample(made, min(len(made), rng.randint(1, 2)))))
+    steps.append(obs(made))
+    return {"kind": "own", "prog": prog, "samplers": samplers, "state": fg.add_heralds(inp, c.heralds["input"]) if rng.random() < 0.6 else gen_state(rng, 4, 3),
+            "steps": steps, "photons": max(sum(sp["input"]) for sp in samplers) + hp}
+
+
+def own_corpus() -> list[dict]:
+    """directed worlds that always run first"""
+    def new(i):
+        return {"op": "new", "who": i}
+
+    def tune(i, sets):
+        return {"op": "tune", "who": i, "set": [[k, v, "float"] for k, v in sets]}
+
+    def obs(who, stats=False):
+        return {"op": "obs", "who": list(who), "stats": stats}
+
+    def smp(form, inp, b="permanent", par=None):
+        return {"backend": b, "input": inp, "form": form, **({"par": par} if par else {})}
+
+    imp = {"nu": "3/4", "x": "1/10", "q": "3/5", "thr": "0"}
+    out = []
+    # Hong-Ou-Mandel: a bystander created before, one created after, one put back on a default; every call form
+    for i, form in enumerate(OWN_DEFAULT_FORMS):
+        f2, f3 = OWN_DEFAULT_FORMS[(i + 1) % 3], OWN_DEFAULT_FORMS[(i + 2) % 3]
+        out.append({"kind": "own", "prog": HOM_PROG, "state": [1, 1], "photons": 2,
+                    "samplers": [smp(form, [1, 1]), smp(f2, [1, 1], "slos"), smp(f3, [1, 1]), smp(form, [1, 1], "slos"), smp("kwargs", [1, 1], par=imp)],
+                    "steps": [new(0), new(1), obs([0, 1], True), tune(0, [["nu", "1/2"], ["q", "3/5"]]), obs([1, 0], True), new(2), obs([2], True),
+                              new(3), obs([3]), new(4), obs([4]), {"op": "none", "who": 4}, obs([4], True), tune(1, [["x", "1/10"]]),
+                              {"op": "none", "who": 0}, obs([0, 1, 2, 3, 4])]})
+    # the very first Sampler of the world is tuned before anything is read; all later ones are perfect
+    for i, form in enumerate(OWN_DEFAULT_FORMS):
+        out.append({"kind": "own", "prog": tri_prog(i == 1), "state": [1, 0, 1], "photons": 2,
+                    "samplers": [smp(form, [1, 1, 0], "slos")] + [smp(f, [1, 0, 1], ["permanent", "slos"][j % 2]) for j, f in enumerate(OWN_FORMS[:4])],
+                    "steps": [new(0), tune(0, [[["q", "1/2"], ["x", "1/3"], ["nu", "9/10"]][i]]), new(1), new(2), new(3), new(4),
+                              obs([1, 2, 3, 4], True), obs([0])]})
+    # one emitter: g2 of a default source stays 0 while another default source is made impure; explicit Source() objects too
+    out.append({"kind": "own", "prog": WIRE_PROG, "state": [1], "photons": 1,
+                "samplers": [smp("default_obj", [1]), smp("omit", [1]), smp("default_obj", [1], "slos"), smp("none", [1], "slos")],
+                "steps": [new(0), new(1), tune(0, [["x", "1/10"], ["nu", "3/4"]]), obs([1, 0], True), new(2), new(3), obs([2, 3], True),
+                          tune(3, [["x", "1/3"]]), obs([0, 1, 2, 3])]})
+    # a threshold / brightness tuned on one default source does not prune the inputs of another
+    out.append({"kind": "own", "prog": HOM_PROG, "state": [1, 1], "photons": 2,
+                "samplers": [smp("none", [1, 1]), smp("omit", [1, 1]), smp("pos", [1, 1], "slos")],
+                "steps": [new(0), new(1), obs([0, 1]), tune(0, [["nu", "3/4"], ["thr", "1/7"]]), obs([1, 0], True), new(2), obs([2], True),
+                          tune(0, [["thr", "9/10"]]), obs([1, 2])]})
+    return out
+
+
+def own_branches(ctx: Ctx, case: dict) -> bool:
+    made: set = set()
+    tuned: set = set()
+    seen_other = False
+    for st in case["steps"]:
+        i = st.get("who")
+        if st["op"] == "new" and i not in made and i < len(case["samplers"]):
+            made.add(i)
+            form = case["samplers"][i]["form"]
+            ctx.count(f"own:new:{form}" + (":after_a_tuning" if tuned else ""))
+        elif st["op"] == "tune" and i in made:
+            tuned.add(i)
+            for key, _, _ in st["set"]:
+                ctx.count("own:tuned_in_place:" + ATTR[key])
+        elif st["op"] in ("none", "replace") and i in made:
+            ctx.count("own:source_set_to_None" if st["op"] == "none" else "own:source_replaced")
+            if st["op"] == "none" and tuned - {i}:
+                ctx.count("own:source_set_to_None_after_another_was_tuned")
+        elif st["op"] == "obs":
+            for j in st["who"]:
+                if j in made:
+                    other = bool(tuned - {j})
+                    seen_other = seen_other or other
+                    ctx.count("own:observe:" + ("tuned_itself" if j in tuned else "untouched") + (":others_tuned" if other else ""))
+    ctx.count(f"own:samplers={len(made)}")
+    return len(made) >= 2 and seen_other
+
+
 def describe_op(op: list) -> str:
     if op[0] == "add":
         return f"add({op[2]}, {op[3]}, group={op[4]})"
@@ -1610,7 +1916,7 @@ def par_corpus() -> list[dict]:
 
 def run_case(ctx: Ctx, case: dict) -> list[str]:
     return {"stats": run_stats, "dist": run_dist, "g2": run_g2, "hom": run_hom, "bad": run_bad, "g2f": run_g2f,
-            "hist": run_hist}[case["kind"]](ctx, case)
+            "hist": run_hist, "own": run_own}[case["kind"]](ctx, case)
 
 
 def drop_sampler(st: dict, remap: dict) -> dict:
@@ -1641,6 +1947,28 @@ def shrink(ctx: Ctx, case: dict) -> dict:
         except Exception:  # noqa: BLE001
             small = case["prog"]
         return {**case, "prog": small, "shrunk": True}
+    if case["kind"] == "own":
+        def fails_own(cand):
+            try:
+                return bool(run_case(ctx, cand))
+            except Exception:  # noqa: BLE001
+                return False
+
+        cur = case
+        try:
+            cur = {**cur, "steps": ddmin(cur["steps"], lambda sub: fails_own({**cur, "steps": sub}), max_tests=60)}
+            for k, st in enumerate(cur["steps"]):  # one assignment per tuning where that is enough
+                if st["op"] == "tune" and len(st["set"]) > 1:
+                    for sub in ([a] for a in st["set"]):
+                        cand = {**cur, "steps": cur["steps"][:k] + [{**st, "set": sub}] + cur["steps"][k + 1:]}
+                        if fails_own(cand):
+                            cur = cand
+                            break
+            small = ddmin(cur["prog"], lambda sub: cg.well_formed(sub) and fails_own({**cur, "prog": sub}), max_tests=30)
+            cur = {**cur, "prog": small}
+        except Exception:  # noqa: BLE001
+            pass
+        return {**cur, "shrunk": True}
     if case["kind"] == "hist":
         def fails(cand):
             try:
@@ -1707,7 +2035,7 @@ def report(ctx: Ctx, case: dict, probs: list[str]) -> None:
     scase = shrink(ctx, case)
     sprobs = run_case(ctx, scase) or probs
     oracle = [p for p in sprobs if p.startswith("oracle")]
-    extra = {"script": hist_script(scase)} if scase["kind"] == "hist" else {}
+    extra = {"script": hist_script(scase)} if scase["kind"] == "hist" else {"script": own_script(scase)} if scase["kind"] == "own" else {}
     if oracle:
         if "removes every" in oracle[0]:
             kind = "threshold-removes-all-inputs"
@@ -1718,6 +2046,8 @@ def report(ctx: Ctx, case: dict, probs: list[str]) -> None:
             kind = oracle[0].split(":", 1)[1].strip()[:40]
         if scase["kind"] == "hist":
             kind = "history:" + oracle[0].split(":", 2)[-1].strip()[:40]
+        if scase["kind"] == "own":
+            kind = "own-source:" + ("settings-changed-unassigned" if "without being assigned" in oracle[0] else oracle[0].split(":", 3)[-1].strip()[:40])
         ctx.violation(oracle[0], {"case": scase, "problems": sprobs, **extra}, sig={"kind": kind})
     else:
         ctx.disagreement(sprobs[0], {"case": scase, "problems": sprobs, **extra})
@@ -1931,11 +2261,24 @@ def run(ctx: Ctx) -> None:
             continue
         nh += 1
         cases.append(case)
+    # worlds of Samplers that each have a Source of their own (library-made defaults / explicit), one tuned in place
+    nh = 0
+    tries = 0
+    while nh < ctx.n(N_OWN_QUICK, 300) and tries < 20000:
+        if ctx.out_of_time():
+            break
+        tries += 1
+        case = gen_own(ctx, rng)
+        if case is None:
+            ctx.count("skipped:too_large")
+            continue
+        nh += 1
+        cases.append(case)
     # directed: the smallest configuration in which the threshold removes every input
     if INCLUDE_OVER_THRESHOLD:
         cases.insert(0, {"kind": "stats", "state": [1, 1], "par": {"nu": "1/2", "x": "0", "q": "1", "thr": "9/10"}})
     # directed histories and directed parameter boundaries run first
-    cases[0:0] = hist_corpus() + par_corpus()
+    cases[0:0] = hist_corpus() + own_corpus() + par_corpus()
     for i, case in enumerate(cases):
         probs = run_case(ctx, case)
         ctx.count("stream:" + case["kind"])
@@ -1965,6 +2308,9 @@ def run(ctx: Ctx) -> None:
             nontrivial = True
         elif case["kind"] == "hist":
             nontrivial = hist_branches(ctx, case)
+            ctx.count(f"photons:{case['photons']}")
+        elif case["kind"] == "own":
+            nontrivial = own_branches(ctx, case)
             ctx.count(f"photons:{case['photons']}")
         ctx.case(json.dumps(case, sort_keys=True), nontrivial, sample=case if i in (1, 150) else None)
         if probs:
